@@ -280,6 +280,8 @@ class PathDomain(Domain):
             if last in ("iteritems", "iterobjects"):
                 return (A("SEG"), self.OTHER, self.OTHER)
             if last == "items":
+                if isinstance(v, tuple) and len(v) == 2:
+                    return v            # the engine modelled the mapping: (keys, values)
                 fv = flat(v)
                 return (fv, fv)
         return v
